@@ -55,6 +55,9 @@ pub struct C05 {
     pub kinds: Vec<Kind>,
     pub gaps: Vec<u64>,
     pub name: &'static str,
+    /// (MultiProgress only) the bars were first drawn on another terminal with this refresh rate, whose
+    /// limiter was exhausted, before `MultiProgress::set_draw_target` moved them to the observed one
+    pub from_r: Option<u8>,
 }
 
 pub fn interval_ns(r: u8) -> u64 {
@@ -127,14 +130,22 @@ struct Run {
 
 impl C05 {
     fn config(&self) -> String {
-        format!("{} R={} target={:?}", self.name, self.r, self.target)
+        match self.from_r {
+            Some(f) => format!("{} R={} target={:?} moved from a {} Hz target", self.name, self.r, self.target, f),
+            None => format!("{} R={} target={:?}", self.name, self.r, self.target),
+        }
     }
 
     fn execute(&self, hist: &[Ev]) -> Result<Run, String> {
         clock::reset();
         let spy = Spy::new(40, 10, false);
         spy.st().frames = Some(Vec::new());
-        let target = ProgressDrawTarget::term_like_with_hz(spy.boxed(), self.r);
+        let old_spy = Spy::new(40, 10, false);
+        let mut target = ProgressDrawTarget::term_like_with_hz(spy.boxed(), self.r);
+        let mut later = None;
+        if let Some(f) = self.from_r {
+            later = Some(std::mem::replace(&mut target, ProgressDrawTarget::term_like_with_hz(old_spy.boxed(), f)));
+        }
         let reach = Reach::default();
         let style = |r: Option<Reach>| {
             let s = ProgressStyle::with_template("{prefix}{pos} {msg}").unwrap();
@@ -160,6 +171,22 @@ impl C05 {
         let mut drawn_b = false;
         let mut drawn_a = false;
         let mut forced: Vec<(usize, usize)> = Vec::new();
+        if let Some(new_target) = later {
+            let r = catch(|| {
+                for _ in 0..25 {
+                    a.tick();
+                    b.as_ref().unwrap().tick();
+                }
+                clock::advance_ms(2);
+                mp.as_ref().unwrap().set_draw_target(new_target);
+            });
+            if let Err(p) = r {
+                return Err(p);
+            }
+            reach.times.lock().unwrap().clear();
+            drawn_a = true;
+            drawn_b = true;
+        }
         let root = Ev { gap_ns: 0, kind: Kind::Burst };
         for ev in std::iter::once(&root).chain(hist.iter()) {
             clock::advance_ns(ev.gap_ns);
@@ -377,7 +404,7 @@ impl Hist for C05 {
 
 fn long_run(r: u8, secs: u64, stats: &mut Stats) {
     // requests every I/3 for `secs` virtual seconds after draining the bucket
-    let cfg = C05 { r, target: Target::Single, kinds: vec![], gaps: vec![], name: "long-run" };
+    let cfg = C05 { r, target: Target::Single, kinds: vec![], gaps: vec![], name: "long-run", from_r: None };
     clock::reset();
     let spy = Spy::new(40, 10, false);
     spy.st().frames = Some(Vec::new());
@@ -420,23 +447,30 @@ fn configs(tier: Tier) -> Vec<(C05, usize)> {
         Tier::Quick => {
             for r in 1..=255u8 {
                 let d = if few.contains(&r) { 3 } else { 2 };
-                v.push((C05 { r, target: Target::Single, kinds: vec![Kind::Tick, Kind::Burst], gaps: draw_gaps(r), name: "draw-limiter" }, d));
+                v.push((C05 { r, target: Target::Single, kinds: vec![Kind::Tick, Kind::Burst], gaps: draw_gaps(r), name: "draw-limiter", from_r: None }, d));
             }
             for &r in &[20u8, 255] {
-                v.push((C05 { r, target: Target::Single, kinds: vec![Kind::Inc, Kind::IncBurst, Kind::Dec, Kind::DecBurst, Kind::ResetIncBurst], gaps: pos_gaps(r), name: "position-bucket" }, 3));
-                v.push((C05 { r, target: Target::Multi, kinds: vec![Kind::Tick, Kind::Burst, Kind::TickB, Kind::IncB, Kind::ChurnTick, Kind::ResizeTick, Kind::FinishReset], gaps: vec![0, 1, interval_ns(r) - 1, interval_ns(r), 20 * interval_ns(r), 21 * interval_ns(r) + 1], name: "multi" }, 3));
-                v.push((C05 { r, target: Target::Single, kinds: vec![Kind::Tick, Kind::Inc, Kind::Burst, Kind::Msg, Kind::SetPos, Kind::SetPosSame, Kind::ResizeTick, Kind::FinishReset], gaps: vec![0, 1_000_000, interval_ns(r) - 1, interval_ns(r) + 1_000_000, 21 * interval_ns(r) + 1], name: "mixed" }, 3));
+                v.push((C05 { r, target: Target::Single, kinds: vec![Kind::Inc, Kind::IncBurst, Kind::Dec, Kind::DecBurst, Kind::ResetIncBurst], gaps: pos_gaps(r), name: "position-bucket", from_r: None }, 3));
+                v.push((C05 { r, target: Target::Multi, kinds: vec![Kind::Tick, Kind::Burst, Kind::TickB, Kind::IncB, Kind::ChurnTick, Kind::ResizeTick, Kind::FinishReset], gaps: vec![0, 1, interval_ns(r) - 1, interval_ns(r), 20 * interval_ns(r), 21 * interval_ns(r) + 1], name: "multi", from_r: None }, 3));
+                v.push((C05 { r, target: Target::Single, kinds: vec![Kind::Tick, Kind::Inc, Kind::Burst, Kind::Msg, Kind::SetPos, Kind::SetPosSame, Kind::ResizeTick, Kind::FinishReset], gaps: vec![0, 1_000_000, interval_ns(r) - 1, interval_ns(r) + 1_000_000, 21 * interval_ns(r) + 1], name: "mixed", from_r: None }, 3));
+            }
+            // the MultiProgress was moved to the observed terminal from one with another refresh rate
+            for (f, r) in [(100u8, 2u8), (2, 100)] {
+                v.push((C05 { r, target: Target::Multi, kinds: vec![Kind::Tick, Kind::Burst, Kind::TickB, Kind::IncB], gaps: vec![0, 1, interval_ns(r) - 1, interval_ns(r), 20 * interval_ns(r), 21 * interval_ns(r) + 1], name: "multi", from_r: Some(f) }, 3));
             }
         }
         Tier::Thorough => {
             for r in 1..=255u8 {
                 let d = if few.contains(&r) { 4 } else { 3 };
-                v.push((C05 { r, target: Target::Single, kinds: vec![Kind::Tick, Kind::Burst], gaps: draw_gaps(r), name: "draw-limiter" }, d));
+                v.push((C05 { r, target: Target::Single, kinds: vec![Kind::Tick, Kind::Burst], gaps: draw_gaps(r), name: "draw-limiter", from_r: None }, d));
             }
             for &r in few {
-                v.push((C05 { r, target: Target::Single, kinds: vec![Kind::Inc, Kind::IncBurst, Kind::Dec, Kind::DecBurst, Kind::ResetIncBurst], gaps: pos_gaps(r), name: "position-bucket" }, 4));
-                v.push((C05 { r, target: Target::Multi, kinds: vec![Kind::Tick, Kind::Burst, Kind::TickB, Kind::IncB, Kind::ChurnTick], gaps: vec![0, 1, interval_ns(r) - 1, interval_ns(r), 20 * interval_ns(r), 21 * interval_ns(r) + 1], name: "multi" }, 4));
-                v.push((C05 { r, target: Target::Single, kinds: vec![Kind::Tick, Kind::Inc, Kind::Burst, Kind::Msg, Kind::SetPos, Kind::SetPosSame, Kind::ResizeTick, Kind::FinishReset], gaps: vec![0, 1_000_000, interval_ns(r) - 1, interval_ns(r) + 1_000_000, 21 * interval_ns(r) + 1], name: "mixed" }, 4));
+                v.push((C05 { r, target: Target::Single, kinds: vec![Kind::Inc, Kind::IncBurst, Kind::Dec, Kind::DecBurst, Kind::ResetIncBurst], gaps: pos_gaps(r), name: "position-bucket", from_r: None }, 4));
+                v.push((C05 { r, target: Target::Multi, kinds: vec![Kind::Tick, Kind::Burst, Kind::TickB, Kind::IncB, Kind::ChurnTick], gaps: vec![0, 1, interval_ns(r) - 1, interval_ns(r), 20 * interval_ns(r), 21 * interval_ns(r) + 1], name: "multi", from_r: None }, 4));
+                v.push((C05 { r, target: Target::Single, kinds: vec![Kind::Tick, Kind::Inc, Kind::Burst, Kind::Msg, Kind::SetPos, Kind::SetPosSame, Kind::ResizeTick, Kind::FinishReset], gaps: vec![0, 1_000_000, interval_ns(r) - 1, interval_ns(r) + 1_000_000, 21 * interval_ns(r) + 1], name: "mixed", from_r: None }, 4));
+            }
+            for (f, r) in [(100u8, 2u8), (2, 100), (255, 1), (1, 255), (20, 21)] {
+                v.push((C05 { r, target: Target::Multi, kinds: vec![Kind::Tick, Kind::Burst, Kind::TickB, Kind::IncB, Kind::ChurnTick], gaps: vec![0, 1, interval_ns(r) - 1, interval_ns(r), 20 * interval_ns(r), 21 * interval_ns(r) + 1], name: "multi", from_r: Some(f) }, if f == 100 || r == 100 { 4 } else { 3 }));
             }
         }
     }
